@@ -34,7 +34,7 @@ import (
 	"verifharness/lib/rfake"
 )
 
-var mode = flag.String("mode", "c01", "c01|c02|c03|c04|c06")
+var mode = flag.String("mode", "c01", "c01|c02|c03|c04|c06|c03s")
 
 // ---------------------------------------------------------------- script
 type coll struct {
@@ -70,6 +70,7 @@ type label struct {
 	msgs    []smsg
 	answers []map[string]int64 // nil entry = failure
 	ids     []int64
+	point   string // park: the scheduling point (max | lock | send) the pack is held at; resume: spch names the handler
 }
 
 // ---------------------------------------------------------------- sync
@@ -79,6 +80,32 @@ type done struct {
 }
 
 var doneCh = make(chan done, 1024)
+
+// schedule control (mode c03s): a pack registered here is held at its scheduling point until it is released
+var (
+	parkMu   sync.Mutex
+	parkAt   = map[*msgstream.MsgPack]string{}
+	release  = map[*msgstream.MsgPack]chan struct{}{}
+	parkedCh = make(chan *msgstream.MsgPack, 16)
+)
+
+func yieldHook(point string, pack *msgstream.MsgPack) {
+	if point == "done" {
+		select {
+		case doneCh <- done{point, pack}:
+		default:
+		}
+		return
+	}
+	parkMu.Lock()
+	at, ok := parkAt[pack]
+	rel := release[pack]
+	parkMu.Unlock()
+	if ok && at == point {
+		parkedCh <- pack
+		<-rel
+	}
+}
 
 func kindCoq(k string) string {
 	return map[string]string{"insert": "KInsert", "delete": "KDelete", "dropcoll": "KDropColl", "droppart": "KDropPart",
@@ -104,6 +131,19 @@ func pairsCoq(l [][2]string) string {
 		o = append(o, cq.Pair(cq.Str(p[0]), cq.Str(p[1])))
 	}
 	return cq.List(o)
+}
+
+// clabelCoq: the label of a schedule-controlled case (Reader/Conc.v)
+func clabelCoq(l label) string {
+	switch l.kind {
+	case "park":
+		f := labelCoq(label{kind: "feed", c: l.c, spch: l.spch, svch: l.svch, begin: l.begin, end: l.end, nstart: l.nstart, msgs: l.msgs, answers: l.answers})
+		pt := map[string]string{"max": "PMax", "lock": "PLock", "send": "PSend"}[l.point]
+		return "(CPark " + strings.TrimSuffix(strings.TrimPrefix(f, "(Feed "), ")") + " " + pt + ")"
+	case "resume":
+		return cq.App("CResume", cq.Str(l.spch))
+	}
+	return "(CSeq " + labelCoq(l) + ")"
 }
 
 func labelCoq(l label) string {
@@ -161,6 +201,7 @@ type sys struct {
 	outAt  []string
 	evAt   []string
 	cur    int
+	held   map[string]*msgstream.MsgPack // parked packs by source channel
 }
 
 func build(m smsg, svch string, c *coll) msgstream.TsMsg {
@@ -386,7 +427,7 @@ func (s *sys) apply(l label) {
 	case "addpart":
 		_ = s.mgr.AddPartition(s.ctx, &model.DatabaseInfo{ID: 1, Name: "default"}, s.info(l.c),
 			&pb.PartitionInfo{PartitionID: l.pid, PartitionName: l.pname, CollectionId: l.c.id, State: pb.PartitionState_PartitionCreated, PartitionCreatedTimestamp: 60})
-	case "feed":
+	case "feed", "park":
 		var ms []msgstream.TsMsg
 		for _, m := range l.msgs {
 			x := build(m, l.svch, l.c)
@@ -405,6 +446,13 @@ func (s *sys) apply(l label) {
 		if ch == nil {
 			return
 		}
+		if l.kind == "park" {
+			parkMu.Lock()
+			parkAt[p] = l.point
+			release[p] = make(chan struct{})
+			parkMu.Unlock()
+			s.held[l.spch] = p
+		}
 		select {
 		case ch <- p:
 		case <-time.After(5 * time.Second):
@@ -415,13 +463,43 @@ func (s *sys) apply(l label) {
 	loop:
 		for {
 			select {
+			case q := <-parkedCh:
+				if q == p {
+					time.Sleep(2 * time.Millisecond)
+					return // held at its scheduling point
+				}
 			case d := <-doneCh:
 				if d.pack == p {
+					delete(s.held, l.spch)
 					break loop
 				}
 			case <-to:
 				timeouts++
 				break loop
+			}
+		}
+		quiet()
+	case "resume":
+		p := s.held[l.spch]
+		if p == nil {
+			return
+		}
+		delete(s.held, l.spch)
+		parkMu.Lock()
+		close(release[p])
+		delete(parkAt, p)
+		parkMu.Unlock()
+		to := time.After(60 * time.Second)
+	rloop:
+		for {
+			select {
+			case d := <-doneCh:
+				if d.pack == p {
+					break rloop
+				}
+			case <-to:
+				timeouts++
+				break rloop
 			}
 		}
 		quiet()
@@ -451,7 +529,7 @@ func runCase(out *cq.Out, retries int, labels []label, tag string) {
 	}
 	ctx, cancel := context.WithCancel(context.Background())
 	mgr.SetCtx(ctx)
-	s := &sys{mgr: mgr, disp: disp, target: tg, ctx: util.GetCtxWithTaskID(ctx, "task-"+rid), rid: rid, tpchs: map[string]bool{}, src: map[uint64]msgstream.TsMsg{}}
+	s := &sys{mgr: mgr, disp: disp, target: tg, ctx: util.GetCtxWithTaskID(ctx, "task-"+rid), rid: rid, tpchs: map[string]bool{}, src: map[uint64]msgstream.TsMsg{}, held: map[string]*msgstream.MsgPack{}}
 	var lt []string
 	data, forwards := 0, 0
 	for i, l := range labels {
@@ -487,20 +565,63 @@ func runCase(out *cq.Out, retries int, labels []label, tag string) {
 	out.Sample(map[string]interface{}{"tag": tag, "labels": lt, "packs_out": len(s.out), "events": s.events})
 }
 
+// runSched: one schedule-controlled case (packs held at scheduling points while other handlers of the channel go on)
+func runSched(out *cq.Out, labels []label, tag string) {
+	caseNo++
+	rid := fmt.Sprintf("rid%d", caseNo)
+	disp := rfake.NewDispatch()
+	tg := rfake.NewTarget()
+	rm, _ := meta.NewReplicateMetaImpl(&rfake.MemStore{})
+	mgr, err := reader.NewReplicateChannelManager(disp, rfake.Factory{}, tg, config.ReaderConfig{
+		MessageBufferSize: 64, TTInterval: 3600000, Retry: config.RetrySettings{RetryTimes: 1, InitBackOff: 1, MaxBackOff: 1}, ReplicateID: rid,
+		SourceChannelNum: 2, TargetChannelNum: 1, // two source channels share the one downstream channel
+	}, rfake.MetaOp{DefaultMetaOp: &api.DefaultMetaOp{}}, rm, nil, "milvus")
+	if err != nil {
+		panic(err)
+	}
+	ctx, cancel := context.WithCancel(context.Background())
+	mgr.SetCtx(ctx)
+	s := &sys{mgr: mgr, disp: disp, target: tg, ctx: util.GetCtxWithTaskID(ctx, "task-"+rid), rid: rid, tpchs: map[string]bool{}, src: map[uint64]msgstream.TsMsg{}, held: map[string]*msgstream.MsgPack{}}
+	var lt []string
+	for i, l := range labels {
+		s.cur = i
+		s.apply(l)
+		lt = append(lt, clabelCoq(l))
+		out.Count("label=" + l.kind)
+		if l.kind == "park" {
+			out.Count("park=" + l.point)
+		}
+	}
+	time.Sleep(5 * time.Millisecond)
+	s.drain()
+	cancel()
+	out.Add(fmt.Sprintf("{| cc_retries := 1%%nat; cc_labels := %s; cc_out := %s; cc_events := %s |}", cq.List(lt), cq.List(s.out), cq.List(s.events)))
+	if len(s.out) >= 3 {
+		out.NonTrivial(strings.Join(lt, ";"))
+	}
+	out.CountN("emitted-packs", len(s.out))
+	out.Sample(map[string]interface{}{"tag": tag, "labels": lt, "packs_out": len(s.out)})
+}
+
 func main() {
 	a := hx.Parse()
 	deadlock.Opts.Disable = true // as server/main does unless DetectDeadLock is configured
 	config.InitCommonConfig(func(c *config.CommonConfig) {
 		c.Retry = config.RetrySettings{RetryTimes: 1, InitBackOff: 1, MaxBackOff: 1}
 	})
-	reader.SetVerifYieldFunc(func(point string, pack *msgstream.MsgPack) {
-		if point == "done" {
-			select {
-			case doneCh <- done{point, pack}:
-			default:
-			}
+	reader.SetVerifYieldFunc(yieldHook)
+	if *mode == "c03s" {
+		out := cq.NewOut(a.Out, "From Verif Require Import Reader.Model Reader.Conc C03.SCheck.", "ccase", 100)
+		schedCorpus(out)
+		for id := 0; id < a.N; id++ {
+			runSched(out, genSched(a), "random")
 		}
-	})
+		out.Extra["sync_timeouts"] = timeouts
+		if err := out.Flush(); err != nil {
+			panic(err)
+		}
+		return
+	}
 	imp := map[string]string{"c01": "C01.Check", "c02": "C02.Check", "c03": "C03.Check", "c04": "C04.Check", "c06": "C06.RCheck"}[*mode]
 	out := cq.NewOut(a.Out, fmt.Sprintf("From Verif Require Import Reader.Model %s.", imp), "case", 100)
 	corpus(out)
